@@ -10,6 +10,8 @@ Tie to source
      correspondence: exact on integer tokens for the index layer (exhaustive over
      all small configurations), 1e-9 on the numeric layer against the driver's
      O(N^2) binary64 DFT.
+Robustness classes R1-R14 live in this file, R15 (close-but-distinct values) and R16
+(argument identity / buffer reuse) in the helper module c02_close_reuse.py.
 """
 import math
 
@@ -90,7 +92,28 @@ CLAIM = {
             'input (call library-exception), never as exit 2. '
             'Python lists are not accepted by the API (ndarray only). Each class has its own required branches '
             '(R*:corr, R*:oracle*) and failure classes computed from the input (R1:param-<type>, R1:array-<dtype>:*, '
-            'R2:<layout>:*, R3:input-mutated:<call>:<what>, R4:*, ...,notch<=1e-3 / ,input-scale<1e-6 qualifiers).',
+            'R2:<layout>:*, R3:input-mutated:<call>:<what>, R4:*, ...,notch<=1e-3 / ,input-scale<1e-6 qualifiers). '
+            'Third robustness round (harness/props/c02_close_reuse.py): R15 distinct values that are merely close - '
+            'THEOREM (params_exact_comparison, setter_takes_effect_for_every_new_value, all_used_branch_exact, '
+            'index_map_exact, freq_response_exact: the model compares exactly, the all-subcarriers branch is taken at '
+            'used = fft only, no perturbation of the taps is ignored) + correspondence (index map, padding and guards at '
+            'fft 2^18 / 200003 with used = fft - 2 | fft - 1; pair histories on close families of signals and channels; '
+            'impulse responses varying by 1e-6 / 1e-10 / one ulp inside an OFDM symbol) + oracle `close` (families: '
+            'magnitudes 1e-9 / 1e-12 / 1e-15, 2.4e9 with relative steps of 1e-6, adjacent doubles, 13th decimal; close '
+            'integers; path powers 1e-5 dB apart and all below -90 dB; sampling intervals 1e-15 .. 2.4e9; paths 1e-9 of a '
+            'sample on either side of a half sample, generated with that margin; every member is compared with a fresh '
+            'first-principles computation for THAT value on ONE long-lived object, and bit for bit with a fresh object). '
+            'R16 argument identity and buffer reuse - THEOREM (pair_result_depends_on_contents_only, '
+            'pair_earlier_results_unchanged, pair_equals_fresh: the model has values, no array objects) + correspondence '
+            '(pair histories with the implementation handed ONE preallocated array per role, refilled in place, or views '
+            'of one big array) + oracle `reuse` (histories of 2-4 transmissions through ONE OFDM object, ONE equaliser, ONE '
+            'channel object and ONE user-built TdlImpulseResponse over a refilled buffer: modulate, corrupt_data, '
+            'demodulate, equalize_data, get_freq_response each against first principles for the contents at call time, '
+            'equal-content copies, the argument overwritten right after the call, earlier results re-compared after every '
+            'round; the same array as modulate and demodulate argument, as tap powers and tap delays, as data and tap '
+            'values; one profile object in channels of different sampling intervals). TdlImpulseResponse keeps a '
+            'reference to the tap array it is built on (by design of the library; its cached dense form `tap_values` is '
+            'not part of this property and is not checked).',
 }
 
 TOL = 1e-9
@@ -2038,10 +2061,15 @@ def corr_robust2(ctx, b, i):
         ctx.branch('R14:corr')
 
 
-def corr_pair_history(ctx, b, case, tag):
+def corr_pair_history(ctx, b, case, tag, bufs=None):
     """the same history on ONE real OFDM object + ONE long-lived equaliser and on the model's pair state
-    machine (`pair` command): every output and the final attributes are compared"""
+    machine (`pair` command): every output and the final attributes are compared.
+    `bufs` (R16): the implementation is handed the caller's preallocated arrays, refilled in place before every
+    call (c02_close_reuse.Buffers), instead of fresh copies; the model is handed the values"""
     o = _ofdm()
+
+    def arg(role, a):
+        return np.array(a, copy=True) if bufs is None else bufs.fill(role, a)
     f, c, u = case['init']
     obj = o.OFDM(f, c, u)
     eqz = o.OfdmOneTapEqualizer(obj)
@@ -2072,10 +2100,10 @@ def corr_pair_history(ctx, b, case, tag):
         x = cx(st['x'])
         ps = float(obj._calculate_power_scale())
         sf = core.f2s(math.sqrt(ps) if ps > 0 else float('nan'))
-        tx = obj.modulate(x.copy())
-        rx = ch.corrupt_data(np.array(tx, copy=True))
+        tx = np.array(obj.modulate(arg('x', x)), copy=True)
+        rx = np.array(ch.corrupt_data(arg('tx', tx)), copy=True)
         ir = ch.get_last_impulse_response()
-        dem = obj.demodulate(np.array(rx[:tx.size], copy=True))
+        dem = np.array(obj.demodulate(arg('rx', rx[:tx.size])), copy=True)
         d = ','.join(str(int(v)) for v in np.asarray(ir.tap_indexes_sparse))
         vals = np.asarray(ir.tap_values_sparse, dtype=complex)
         ops.append('mod:%s:%s' % (sf, fl(x)))
@@ -2083,7 +2111,7 @@ def corr_pair_history(ctx, b, case, tag):
         ops.append('demod:%s:%s' % (sf, fl(rx[:tx.size])))
         checks.append(num('pair.demodulate', dem, TOL))
         try:
-            out = eqz.equalize_data(np.array(dem, copy=True), ir)
+            out = np.array(eqz.equalize_data(arg('dem', dem), ir), copy=True)
             ops.append('eq:%s:%d:%s:%s' % (d, vals.shape[1], fl(vals), fl(dem)))
             checks.append(num('pair.equalize_data', out, 1e-7))
         except Exception as e:
@@ -2105,7 +2133,7 @@ def corr_pair_history(ctx, b, case, tag):
         if eq2 is None and len(ops) > 6:
             eq2 = o.OfdmOneTapEqualizer(obj)
         if eq2 is not None and dem.size:
-            out_b = eq2.equalize_data(np.array(dem, copy=True), ir)
+            out_b = eq2.equalize_data(arg('dem', dem), ir)
             ops.append('eq:%s:%d:%s:%s' % (d, vals.shape[1], fl(vals), fl(dem)))
             checks.append(num('pair.equalize_data.second-equaliser', out_b, 1e-7))
             ctx.branch('R7:corr')
@@ -2122,6 +2150,8 @@ def corr_pair_history(ctx, b, case, tag):
     fi, ci, ui = case['init']
     b.add('pair %d %d %d %s' % (fi, ci, ui, ';'.join(ops)), on_reply)
     ctx.branch('pair:history')
+    if bufs is not None:
+        ctx.branch('R16:corr')
 
 
 def correspondence(ctx, small, nparams, nrand, fmax, nnum, nchan):
@@ -2164,6 +2194,16 @@ def correspondence(ctx, small, nparams, nrand, fmax, nnum, nchan):
     for i in range(max(10, nchan // 2)):
         init, sets = gen_history(ctx.rng)
         guarded(ctx, 'pair-history', i, corr_pair_history, ctx, b, history_case(ctx.rng, init, sets), i)
+    # R16: the same kind of histories, the implementation driven with the caller's buffers refilled in place
+    for i, (init, sets) in enumerate(STRUCTURED_HISTORIES[2:]):          # (the fft 64 / 128 ones are cubic in the model)
+        guarded(ctx, 'pair-history-buffers', 's%d' % i, corr_pair_history, ctx, b, history_case(ctx.rng, init, sets),
+                'r16-s%d' % i, CR.Buffers(views=i % 2 == 1))
+    for i in range(6 if nchan <= 40 else 60):
+        init, sets = gen_history(ctx.rng, k=ctx.rng.randint(2, 4))
+        guarded(ctx, 'pair-history-buffers', i, corr_pair_history, ctx, b, history_case(ctx.rng, init, sets),
+                'r16-%d' % i, CR.Buffers(views=i % 2 == 1))
+    # R15: close-but-distinct values
+    guarded(ctx, 'close-values', 'R15', CR.corr_close, ctx, b, nchan <= 40)
     b.flush()
 
 
@@ -2393,6 +2433,7 @@ def oracles(ctx, small, nrand, fmax, nchan):
     run_corpus(ctx)
     robust_oracles(ctx, ctx.tier == 'quick')
     robust2_oracles(ctx, ctx.tier == 'quick')
+    CR.run_oracles(ctx, ctx.tier == 'quick')
     # constructor table
     for fft in range(0, min(small, 10) + 1):
         for cp in range(-1, fft + 2):
@@ -2481,7 +2522,11 @@ def check(ctx):
                              'R1:corr', 'R2:corr', 'R3:corr', 'R4:corr', 'R5:corr', 'R5:corr:deep-notch', 'R6:corr', 'R7:corr',
                              'R1:oracle:param', 'R1:oracle:array', 'R2:oracle', 'R3:oracle', 'R4:oracle', 'R5:oracle:sizes',
                              'R5:oracle:single-path', 'R5:oracle:zero-input', 'R5:oracle:deep-notch',
-                             'R5:oracle:null-on-unused-carrier', 'R6:oracle', 'R7:oracle']
+                             'R5:oracle:null-on-unused-carrier', 'R6:oracle', 'R7:oracle',
+                             'R15:corr:close-integers', 'R15:corr:close-values', 'R15:corr:slowly-varying',
+                             'R15:oracle:close-integers', 'R15:oracle:signals', 'R15:oracle:channels', 'R15:oracle:powers',
+                             'R15:oracle:slowly-varying', 'R15:oracle:discretisation',
+                             'R16:corr', 'R16:oracle:buffer-refilled', 'R16:oracle:same-array-two-roles']
     try:
         correspondence(ctx, small, 300 if quick else 3000, 150 if quick else 1500, 128 if quick else 512,
                        60 if quick else 600, 40 if quick else 500)
@@ -2531,3 +2576,11 @@ def search(ctx):
     for _ in range(300):
         init, sets = gen_history(rng)
         run_oracle(ctx, 'onetap_history', history_case(rng, init, sets))
+    CR.search(ctx)
+
+
+# R15 / R16 live in a helper module (it uses the definitions above)
+from harness.props import c02_close_reuse as CR      # noqa: E402
+
+ORACLES['close'] = CR.o_close
+ORACLES['reuse'] = CR.o_reuse
